@@ -231,6 +231,48 @@ func (st *c09State) prepare(w *engine.Worker, cs *c09Case) error {
 		s.Pre = "keep"
 		_, err := w.Exec(st.g.Sim, &s, st.timeout)
 		return err
+	case "debris-other":
+		// what a run on ANOTHER, larger grammar left behind when it died in the middle of
+		// writing a file (the target's files are shorter than the debris)
+		var other *GrammarCase
+		for _, gc := range st.cases {
+			if gc.IR != nil && gc.ID == "stmtexpr" {
+				other = gc
+			}
+		}
+		if other == nil || other.ID == cs.gc.ID {
+			return nil
+		}
+		s := c09Spec(other, mergeFlags(other.NeedFlags, cs.flags), cs.env)
+		ref, err := func() (*engine.Result, error) {
+			p := simrt.Plan{Map: simrt.MapPlan{Policy: "identity"}, TickBudget: c09TickBudget}
+			s2 := s
+			s2.Plan = &p
+			s2.Pre = "keep"
+			return w.Exec(st.g.Sim, &s2, st.timeout)
+		}()
+		if err != nil {
+			return err
+		}
+		// die inside the k-th write (k derived from the configuration), keeping all but one byte
+		var writes []int
+		for _, op := range ref.Ops {
+			if op.Call == "WriteFile" || op.Call == "Write" {
+				writes = append(writes, op.N)
+			}
+		}
+		if len(writes) == 0 {
+			return nil
+		}
+		k := writes[(len(cs.key())+len(cs.flags))%len(writes)]
+		if err := w.Clean(); err != nil {
+			return err
+		}
+		p := simrt.Plan{Map: simrt.MapPlan{Policy: "identity"}, TickBudget: c09TickBudget, Faults: []simrt.Fault{{Op: k, Kind: "torn", Keep: -1}}}
+		s.Plan = &p
+		s.Pre = "keep"
+		_, err = w.Exec(st.g.Sim, &s, st.timeout)
+		return err
 	case "corrupt":
 		// a complete earlier output of the SAME configuration whose files were damaged in
 		// place: same names, same lengths, different bytes (zero-filled blocks after a
@@ -347,8 +389,10 @@ func RunC09(c *Ctx) error {
 	r := prng.Sub(c.Seed, "c09", 0)
 
 	// ---- configurations ----
-	envs := []c09Env{{}, {Out: "out"}, {Out: "out/deeper"}, {Out: "ABS:gen"}, {Pkg: true}, {Cwd: "a/b"}, {Cwd: "a/b", Out: "sub"}, {Cwd: "a/b", Pkg: true}}
-	pres := []string{"", "other", "debris", "file", "corrupt"}
+	envs := []c09Env{{}, {Out: "out"}, {Out: "out/deeper"}, {Out: "ABS:gen"}, {Pkg: true}, {Cwd: "a/b"}, {Cwd: "a/b", Out: "sub"}, {Cwd: "a/b", Pkg: true},
+		// legal but unclean spellings of the same places
+		{Out: "ABS:gen/"}, {Cwd: "a/b", Out: "ABS:./gen"}, {Out: "./out/"}, {Cwd: "a/b", Out: "x/../sub"}, {Out: "ABS:gen//deep"}}
+	pres := []string{"", "other", "debris", "file", "corrupt", "debris-other"}
 	quickFlags := [][]string{{}, {"-zip"}, {"-v", "-a"}, {"-no_lexer"}, {"-debug_lexer", "-debug_parser"}, {"-zip", "-no_lexer", "-v"}}
 	var cfgs []*c09Case
 	seen := map[string]bool{}
@@ -510,7 +554,8 @@ func RunC09(c *Ctx) error {
 			mk := func(f simrt.Fault, rerun bool) {
 				jobs = append(jobs, &c09Job{cs: cs, output: out, plan: c09Plan{Spec: cs.spec, Env: cs.env, Faults: []simrt.Fault{f}, Rerun: rerun, Class: class}})
 			}
-			mk(simrt.Fault{Op: op.N, Kind: "err", Errno: prng.Pick(rr, errnosFor(op.Call))}, false)
+			// a plain error; every other one is followed by the user simply running gocc again
+			mk(simrt.Fault{Op: op.N, Kind: "err", Errno: prng.Pick(rr, errnosFor(op.Call))}, out && (c.Tier == "thorough" || op.N%2 == 0))
 			if op.Call == "WriteFile" || op.Call == "Write" {
 				mk(simrt.Fault{Op: op.N, Kind: "short", Errno: "ENOSPC", Keep: []int{0, 1, -2, -1}[rr.Intn(4)]}, false)
 				mk(simrt.Fault{Op: op.N, Kind: "torn", Keep: []int{0, 1, -2, -1}[rr.Intn(4)]}, true)
